@@ -54,7 +54,7 @@ func withStrings(term string) string {
 	for i, s := range strTable {
 		items[i] = lit(s)
 	}
-	return "(let T := " + vh.List(items) + " in " + term + ")"
+	return "(let T : list bytes := " + vh.List(items) + " in " + term + ")"
 }
 
 // jsonb renders a JSON document: when it is plain printable ASCII without an apostrophe, as
